@@ -442,6 +442,7 @@ func (s *Sim) execFn(fr *Frame, st *State) []*State {
 							}
 						}
 						s.onReturn(fr, t, x)
+						s.noteResultSign(fr, t, x)
 						x.dropFrameFacts(fn)
 						s.dropFrameObjects(fr, t, x)
 						ek := x.key()
@@ -591,6 +592,19 @@ func (s *Sim) evalBool(fr *Frame, st *State, v ssa.Value) (bool, bool) {
 			}
 		}
 		if x.Op == token.EQL || x.Op == token.NEQ {
+			var loc ssa.Value
+			if isZeroConst(x.Y) {
+				loc = x.X
+			} else if isZeroConst(x.X) {
+				loc = x.Y
+			}
+			if ld, ok := loc.(*ssa.UnOp); ok && ld.Op == token.MUL {
+				if a := s.P.Eval(fr, ld.X); a.K == KPath && s.privateLocal(a) {
+					if f, has := st.nz[a.Key()]; has {
+						return f.v == (x.Op == token.NEQ), true
+					}
+				}
+			}
 			if isNilConst(x.Y) || isNilConst(x.X) {
 				o := x.X
 				if isNilConst(x.X) {
@@ -1671,6 +1685,20 @@ func (s *Sim) step(fr *Frame, in ssa.Instruction, st *State) []*State {
 		if a.K == KPath {
 			delete(st.nz, a.Key())
 			delete(st.nilp, a.Key())
+			// an integer whose zero-ness is known (a constant; the result of a callee that returned 0 on this path)
+			if bt, isB := x.Val.Type().Underlying().(*types.Basic); isB && bt.Info()&types.IsInteger != 0 && s.privateLocal(a) {
+				if cv, isInt := (Val{K: KConst}).constIntOf(x.Val); isInt {
+					st.nz[a.Key()] = pfact{cv != 0, fr.Fn}
+				} else if sv := s.P.Eval(fr, x.Val); sv.K == KPath && len(sv.Segs) == 0 {
+					if m, has := st.sg[sv.Key()]; has {
+						if m == 2 {
+							st.nz[a.Key()] = pfact{false, fr.Fn}
+						} else if m&2 == 0 {
+							st.nz[a.Key()] = pfact{true, fr.Fn}
+						}
+					}
+				}
+			}
 			if al, ok := a.Root.(*ssa.Alloc); ok && len(a.Segs) == 0 && !a.Deref && s.P.LocalFlag(al) {
 				k := a.Key()
 				if b, known := s.evalBool(fr, st, x.Val); known && isBool(x.Val.Type()) {
@@ -2417,6 +2445,15 @@ func (s *Sim) execInlined(nf *Frame, st *State) []*State {
 	exits := s.execFn(nf, st)
 	st.bf, st.nf = saveB, saveN
 	for _, e := range exits {
+		// the sign of the callee's (single, integer) result on this exit becomes a fact about the call's value
+		if m, ok := e.sg["ret#0"]; ok {
+			delete(e.sg, "ret#0")
+			if call, isCall := nf.Site.(*ssa.Call); isCall && nf.Parent != nil {
+				if cvv := s.P.Eval(nf.Parent, call); cvv.K == KPath && len(cvv.Segs) == 0 {
+					e.sg[cvv.Key()] = m
+				}
+			}
+		}
 		e.bf = make(map[ssa.Value]bool, len(saveB))
 		for k, v := range saveB {
 			e.bf[k] = v
@@ -2686,4 +2723,58 @@ func (s *Sim) noteResolved(in ssa.Instruction, fn *ssa.Function) {
 		s.ResolvedSites[in] = m
 	}
 	m[fn] = true
+}
+
+// noteResultSign records, in the exit state, whether the single integer result of the returning function is zero.
+func (s *Sim) noteResultSign(fr *Frame, r *ssa.Return, st *State) {
+	delete(st.sg, "ret#0")
+	if len(r.Results) != 1 {
+		return
+	}
+	v := r.Results[0]
+	bt, isB := v.Type().Underlying().(*types.Basic)
+	if !isB || bt.Info()&types.IsInteger == 0 {
+		return
+	}
+	if cv, isInt := (Val{K: KConst}).constIntOf(v); isInt {
+		if cv == 0 {
+			st.sg["ret#0"] = 2
+		} else {
+			st.sg["ret#0"] = 5
+		}
+		return
+	}
+	if ld, ok := v.(*ssa.UnOp); ok && ld.Op == token.MUL {
+		if a := s.P.Eval(fr, ld.X); a.K == KPath {
+			if f, has := st.nz[a.Key()]; has {
+				if f.v {
+					st.sg["ret#0"] = 5
+				} else {
+					st.sg["ret#0"] = 2
+				}
+			}
+		}
+		return
+	}
+	if sv := s.P.Eval(fr, v); sv.K == KPath && len(sv.Segs) == 0 {
+		if m, has := st.sg[sv.Key()]; has {
+			st.sg["ret#0"] = m
+		}
+	}
+}
+
+// constIntOf: the value of an integer constant.
+func (Val) constIntOf(v ssa.Value) (int64, bool) {
+	c, ok := v.(*ssa.Const)
+	if !ok || c.Value == nil {
+		return 0, false
+	}
+	return (Val{K: KConst, Const: c}).ConstInt()
+}
+
+// privateLocal: the location is a local variable of the running activation that no concurrently running closure
+// can reach (what is known about its contents cannot be changed behind the simulator's back).
+func (s *Sim) privateLocal(a Val) bool {
+	al, ok := a.Root.(*ssa.Alloc)
+	return ok && len(a.Segs) == 0 && !a.Deref && !s.P.ConcurrentlyCaptured(al)
 }
